@@ -25,7 +25,6 @@ def independent_correlation(m, X):
     R = np.zeros((d, d))
     const = {}
     for c in cols:
-        z = S[c] - S[c].mean()
         const[c] = bool(np.all(S[c] == S[c][0]))
     for i, a in enumerate(cols):
         for j, b in enumerate(cols):
@@ -59,7 +58,11 @@ def fit_oracles(m, X):
     if ev.min() < -1e-9:
         bad.append(('psd', f'smallest eigenvalue {ev.min()}'))
     R, const = independent_correlation(m, X)
-    ridge_expected = bool(np.linalg.cond(R) > 1.0 / DBL_EPS)
+    cond_R = float(np.linalg.cond(R))
+    ridge_expected = bool(cond_R > 1.0 / DBL_EPS)
+    # the decision is numerically ill-defined when the condition number is within a factor 100 of the threshold (the smallest
+    # singular value is then of the order of the rounding errors of the Pearson sums): either decision is accepted there
+    ridge_ambiguous = bool(1e-2 / DBL_EPS < cond_R < 1e2 / DBL_EPS)
     for i, c in enumerate(cols):
         nonconst_col = len(set(X[c].to_numpy().tolist())) > 1
         if nonconst_col and not const[c] and abs(M[i, i] - 1.0) > eps + 1e-9:
@@ -70,6 +73,8 @@ def fit_oracles(m, X):
             if np.any(off != 0) or np.any(off2 != 0) or abs(M[i, i]) > eps + 1e-12:
                 bad.append(('constant-zero', f'constant column {c!r}: row {M[i, :].tolist()}'))
     E = R + (np.identity(d) * eps if ridge_expected else 0.0)
+    if ridge_ambiguous and np.abs(M - E).max() > 1e-8:
+        E = R + (np.identity(d) * eps if not ridge_expected else 0.0)
     k = int(np.argmax(np.abs(M - E)))
     if np.abs(M - E).max() > 1e-8:
         bad.append(('entry-definition', f'entry ({cols[k // d]!r},{cols[k % d]!r}) = {M.flat[k]} but the Pearson correlation of the normal '
